@@ -349,9 +349,10 @@ def cases(tier, prop="C01"):
           out.append(Case(prop, TGT + "quantized_bits.__call__", name,
                           qbits_scenario(prop, kn, sym, ak, ste), bounds=bounds,
                           replay_kind="q_fixed", assumptions=ASSUME, lo=-12, hi=12))
-  def add(target, name, build, **kw):
+  def add(target, name, build, precise=False, **kw):
     out.append(Case(prop, TGT + target, name, generic_scenario(prop, build, **kw), bounds=bounds,
-                    replay_kind="q_fixed", assumptions=ASSUME, lo=-12, hi=12))
+                    replay_kind="q_fixed", assumptions=ASSUME + (["tf.round rounds ties to even (modelled exactly here)"] if precise else []),
+                    lo=-12, hi=12, precise_ties=precise))
   for slope in (0.0, 0.25):
     for ste in (True, False):
       add("quantized_relu.__call__", "slope%s_%s" % (str(slope).replace(".", "p"), "ste" if ste else "noste"),
